@@ -1053,6 +1053,204 @@ theorem fastqDel_fresh (f f1 : Fastq) (k : Str) (raw : List QRaw)
     · simp only [List.map_append, List.mem_append, not_or]
       exact ⟨hA, by rw [k2]; exact hB⟩
 
+/-! ## 5. Dictionary behaviour of `__setitem__` for a fresh key -/
+
+theorem fastqSet_fresh_norm (f : Fastq) (id seq : Str) (qs : List Int)
+    (hoff : -128 ≤ f.off ∧ f.off ≤ 127) (hcpl : ∀ w, f.cpl = some w → 1 ≤ w)
+    (hlen : seq.length = qs.length) (hq : ∀ q ∈ qs, ScoreOk f.off q)
+    (hfresh : f.entries.lookup (normHeader id) = none) :
+    fastqSet f id seq qs =
+      .ok ⟨f.lines ++ qBlock (normHeader id) (qChunks f.cpl seq) (qChunks f.cpl (qEnc f.off qs)),
+           f.entries ++ [(normHeader id, f.lines.length + 1, f.lines.length + 1 + (qChunks f.cpl seq).length,
+                  f.lines.length + 2 + (qChunks f.cpl seq).length,
+                  f.lines.length + 2 + (qChunks f.cpl seq).length + (qChunks f.cpl (qEnc f.off qs)).length)],
+           f.off, f.cpl⟩ := by
+  have hc0 : ¬ (f.cpl = some 0) := by
+    intro h0
+    have := hcpl 0 h0
+    omega
+  have henc := (qEnc_spec f.off hoff qs hq).1
+  unfold fastqSet
+  simp only [hlen, ne_eq, not_true_eq_false, if_false, hfresh, Option.isSome_none,
+    Bool.false_eq_true, hc0, henc, fastqNewLines]
+  have : f.lines.length + (qBlock (normHeader id) (qChunks f.cpl seq) (qChunks f.cpl (qEnc f.off qs))).length =
+      f.lines.length + 2 + (qChunks f.cpl seq).length + (qChunks f.cpl (qEnc f.off qs)).length := by
+    rw [qBlock_length]; omega
+  simp only [qBlock] at this ⊢
+  rw [this]
+
+/-- every entry found lies inside the file: `seq_stop ≤ score_stop ≤ number of lines` -/
+theorem qFind_bounds (ls : List Str) (m : QMode) (i : Nat) (es : List QRaw)
+    (h : qFind m i ls = .ok es) (hm : ∀ id ss se sl ql, m = .inScores id ss se sl ql → se ≤ i) :
+    ∀ e ∈ es, e.2.2.1 ≤ e.2.2.2.2 ∧ e.2.2.2.2 ≤ i + ls.length := by
+  induction ls generalizing m i es with
+  | nil =>
+    cases m with
+    | idle => simp only [qFind, Except.ok.injEq] at h; subst h; simp
+    | inSeq => simp [qFind] at h
+    | inScores => simp [qFind] at h
+  | cons line rest ih =>
+    have step : ∀ m' es', qFind m' (i + 1) rest = .ok es' →
+        (∀ id ss se sl ql, m' = .inScores id ss se sl ql → se ≤ i + 1) →
+        ∀ e ∈ es', e.2.2.1 ≤ e.2.2.2.2 ∧ e.2.2.2.2 ≤ i + (line :: rest).length := by
+      intro m' es' h' hm' e he
+      have := ih m' (i + 1) es' h' hm' e he
+      simp only [List.length_cons]
+      omega
+    cases m with
+    | idle =>
+      cases line with
+      | nil => simp [qFind] at h
+      | cons c cs =>
+        by_cases hc : c = '@'
+        · simp only [qFind, hc, if_true] at h
+          exact step _ _ h (by intro _ _ _ _ _ hh; cases hh)
+        · simp [qFind, hc] at h
+    | inSeq id ss sl =>
+      cases line with
+      | nil => simp [qFind] at h
+      | cons c cs =>
+        by_cases hc : c = '+'
+        · simp only [qFind, hc, if_true] at h
+          exact step _ _ h (by intro _ _ _ _ _ hh; cases hh; omega)
+        · simp only [qFind, hc, if_false] at h
+          exact step _ _ h (by intro _ _ _ _ _ hh; cases hh)
+    | inScores id ss se sl ql =>
+      have hse := hm id ss se sl ql rfl
+      simp only [qFind] at h
+      split at h
+      · exact step _ _ h (by intro _ _ _ _ _ hh; cases hh; omega)
+      · split at h
+        · cases hr : qFind .idle (i + 1) rest with
+          | error e => rw [hr] at h; simp at h
+          | ok es0 =>
+            rw [hr] at h
+            simp only [Except.ok.injEq] at h
+            subst h
+            intro e he
+            simp only [List.mem_cons] at he
+            rcases he with rfl | he
+            · simp only [List.length_cons]; omega
+            · exact step .idle _ hr (by intro _ _ _ _ _ hh; cases hh) e he
+        · simp at h
+
+theorem qMem_odInsert {ν : Type} (d : List (Str × ν)) (k : Str) (v : ν) (p : Str × ν)
+    (h : p ∈ odInsert d k v) : p ∈ d ∨ p = (k, v) := by
+  unfold odInsert at h
+  split at h
+  · obtain ⟨x, hx, rfl⟩ := List.mem_map.mp h
+    split
+    · exact Or.inr rfl
+    · exact Or.inl hx
+  · simpa using h
+
+theorem qMem_odFold {ν : Type} (l acc : List (Str × ν)) (p : Str × ν)
+    (h : p ∈ l.foldl (fun d x => odInsert d x.1 x.2) acc) : p ∈ acc ∨ p ∈ l := by
+  induction l generalizing acc with
+  | nil => exact Or.inl h
+  | cons x l ih =>
+    rcases ih _ h with h1 | h1
+    · rcases qMem_odInsert acc x.1 x.2 p h1 with h2 | h2
+      · exact Or.inl h2
+      · exact Or.inr (by simp [h2])
+    · exact Or.inr (by simp [h1])
+
+/-- consistency gives the index bounds of every entry tuple -/
+theorem fastqFind_bounds (lines : List Str) (entries : List QRaw) (h : fastqFind lines = .ok entries) :
+    ∀ e ∈ entries, e.2.2.1 ≤ e.2.2.2.2 ∧ e.2.2.2.2 ≤ lines.length := by
+  unfold fastqFind at h
+  cases hr : qFind .idle 0 lines with
+  | error e => rw [hr] at h; simp at h
+  | ok raw =>
+    rw [hr] at h
+    simp only [Except.ok.injEq] at h
+    subst h
+    intro e he
+    have hmem : e ∈ raw := by
+      rcases qMem_odFold raw [] e he with h1 | h1
+      · simp at h1
+      · exact h1
+    have := qFind_bounds lines .idle 0 raw hr (by intro _ _ _ _ _ hh; cases hh) e hmem
+    simpa using this
+
+theorem qSliceL_append {α : Type} (L N : List α) (a b : Nat) (hb : b ≤ L.length) :
+    sliceL (L ++ N) a b = sliceL L a b := by
+  unfold sliceL
+  rw [List.take_append_of_le_length hb]
+
+theorem qMapM_congr {α β : Type} (g g' : α → Except Err β) (l : List α) (h : ∀ x ∈ l, g x = g' x) :
+    l.mapM g = l.mapM g' := by
+  induction l with
+  | nil => rfl
+  | cons x l ih =>
+    simp only [List.mapM_cons, h x (by simp), ih (fun y hy => h y (by simp [hy]))]
+
+/-- appending lines and entry tuples does not change what an old key reads -/
+theorem fastqGet_append (f : Fastq) (N : List Str) (M : List QRaw) (k : Str)
+    (hb : ∀ e ∈ f.entries, e.2.2.1 ≤ e.2.2.2.2 ∧ e.2.2.2.2 ≤ f.lines.length)
+    (hk : (f.entries.lookup k).isSome) :
+    fastqGet ⟨f.lines ++ N, f.entries ++ M, f.off, f.cpl⟩ k = fastqGet f k := by
+  cases hl : f.entries.lookup k with
+  | none => rw [hl] at hk; simp at hk
+  | some t =>
+    obtain ⟨a, b, c, d⟩ := t
+    obtain ⟨A, B, hAB, _⟩ := qLookup_split f.entries k _ hl
+    have hmem : (k, a, b, c, d) ∈ f.entries := by rw [hAB]; simp
+    have hbd := hb _ hmem
+    simp only at hbd
+    unfold fastqGet
+    simp only [List.lookup_append, hl, Option.some_or]
+    rw [qSliceL_append f.lines N c d hbd.2, qSliceL_append f.lines N a b (by omega)]
+
+/-- `file[id] = (seq, scores)` for an identifier that is not yet a key appends the item, and all
+other items are unchanged -/
+theorem fastq_set_items_fresh (f : Fastq) (id seq : Str) (qs : List Int) (items : List (Str × Str × List Int))
+    (hinv : fastqFind f.lines = .ok f.entries) (hseq : QSeqOk seq)
+    (hoff : -128 ≤ f.off ∧ f.off ≤ 127) (hq : ∀ q ∈ qs, ScoreOk f.off q)
+    (hlen : seq.length = qs.length) (hfresh : f.entries.lookup (normHeader id) = none)
+    (hcpl : ∀ w, f.cpl = some w → 1 ≤ w) (hitems : fastqItems f = .ok items) :
+    ∃ f', fastqSet f id seq qs = .ok f' ∧ fastqItems f' = .ok (items ++ [(normHeader id, seq, qs)]) := by
+  refine ⟨_, fastqSet_fresh_norm f id seq qs hoff hcpl hlen hq hfresh, ?_⟩
+  have hspec := qEnc_spec f.off hoff qs hq
+  have hs1 : Chunking seq (qChunks f.cpl seq) := qChunks_chunking f.cpl hcpl _ hseq.1
+  have hne : qEnc f.off qs ≠ [] := by
+    intro h0
+    have h1 := hspec.2.2.1
+    rw [h0] at h1
+    have := List.length_pos_iff.mpr hseq.1
+    simp at h1; omega
+  have hs2 : Chunking (qEnc f.off qs) (qChunks f.cpl (qEnc f.off qs)) := qChunks_chunking f.cpl hcpl _ hne
+  have hb := fastqFind_bounds f.lines f.entries hinv
+  have hA : normHeader id ∉ f.entries.map (·.1) := by
+    rw [List.lookup_eq_none_iff] at hfresh
+    intro hm
+    obtain ⟨p, hp, hpk⟩ := List.mem_map.mp hm
+    have := hfresh p hp
+    simp [hpk] at this
+  -- the new key reads the new item
+  have hnew := fastqGet_block f.lines [] f.entries [] (normHeader id) seq (qEnc f.off qs) qs _ _ f.off f.cpl
+    hA hs1.1 hs2.1 hspec.2.1
+  simp only [List.append_nil] at hnew
+  -- old keys read what they read before
+  have hold : ∀ e ∈ f.entries,
+      (fastqGet ⟨f.lines ++ qBlock (normHeader id) (qChunks f.cpl seq) (qChunks f.cpl (qEnc f.off qs)),
+        f.entries ++ [(normHeader id, f.lines.length + 1, f.lines.length + 1 + (qChunks f.cpl seq).length,
+          f.lines.length + 2 + (qChunks f.cpl seq).length,
+          f.lines.length + 2 + (qChunks f.cpl seq).length + (qChunks f.cpl (qEnc f.off qs)).length)],
+        f.off, f.cpl⟩ e.1).map (fun s => (e.1, s)) = (fastqGet f e.1).map (fun s => (e.1, s)) := by
+    intro e he
+    rw [fastqGet_append f _ _ e.1 hb]
+    cases hl : f.entries.lookup e.1 with
+    | some t => rfl
+    | none =>
+      rw [List.lookup_eq_none_iff] at hl
+      have := hl e he
+      simp at this
+  unfold fastqItems at hitems ⊢
+  simp only [List.mapM_append, List.mapM_cons, List.mapM_nil]
+  rw [qMapM_congr _ _ f.entries hold, hitems, hnew]
+  rfl
+
 /-! ## Non-vacuity checks -/
 
 /-- round trip on a concrete file whose wrapped score lines are `@+` and `+@` -/
